@@ -484,6 +484,45 @@ pub fn run<D: Dec>(rep: &mut Report) {
                 }
             }
         }
+        // -- a rejected frame k times (an undriven or stuck line, a glitching cable), then EVERY byte's valid frame and a key:
+        //    with modifiers held and a lock set, over add_word and over add_bit – what the framing stage rejects must never
+        //    reach the other two stages, whichever byte comes next (a re-plug / self-test "detector" in the Keyboard would)
+        {
+            let setup: Vec<KOp> = vec![KOp::Ev(KeyCode::LShift, KeyState::Down), KOp::Ev(KeyCode::RControl, KeyState::Down), KOp::Ev(KeyCode::LAlt, KeyState::Down), KOp::Ev(KeyCode::CapsLock, KeyState::Down), KOp::Ev(KeyCode::NumpadLock, KeyState::Down)];
+            let good = encode_frame(0xAA);
+            // all ones, all zeros, wrong parity, start bit 1, stop bit 0
+            let rejected: [u16; 5] = [0x7FF, 0x000, good ^ 0x200, good | 1, good & 0x3FF];
+            for (ri, rw) in rejected.iter().enumerate() {
+                for k in [1usize, 2, 3, 4, 5, 8, 16] {
+                    for serial_rej in [false, true] {
+                        for serial_good in [false, true] {
+                            for byte in 0..=255u8 {
+                                if !mine(&mut case_no) {
+                                    continue;
+                                }
+                                let mut checked: Vec<KOp> = Vec::new();
+                                for _ in 0..k {
+                                    if serial_rej {
+                                        checked.extend((0..11).map(|i| KOp::Bit((rw >> i) & 1 == 1)));
+                                    } else {
+                                        checked.push(KOp::Word(*rw));
+                                    }
+                                }
+                                let f = encode_frame(byte);
+                                if serial_good {
+                                    checked.extend((0..11).map(|i| KOp::Bit((f >> i) & 1 == 1)));
+                                } else {
+                                    checked.push(KOp::Word(f));
+                                }
+                                checked.push(KOp::Ev(KeyCode::A, KeyState::Down));
+                                run_case::<D>((ri + k + byte as usize) % 10, &setup, &checked, &mut out);
+                                out.distinct.insert((7, ((ri * 100 + k) * 4 + serial_rej as usize * 2 + serial_good as usize) as u64 * 256 + byte as u64));
+                            }
+                        }
+                    }
+                }
+            }
+        }
         // -- add_word takes a u16: all 65 536 values (the five bits above the frame included), contexts strided
         for w in 0..=u16::MAX {
             if w < 2048 || !mine(&mut case_no) {
